@@ -204,9 +204,10 @@ def erase(ty):
 class Ctx:
     def __init__(self, tr, fileidx, owner, rty, mode, forced_opt):
         self.tr, self.ix, self.owner, self.rty, self.mode, self.opt = tr, fileidx, owner, rty, mode, forced_opt
-        self.used = set()
+        self.used = set(["TABLE", "TABLE16"])
         self.rets = []
         self.setter = False
+        self.ext_used = set()
 
     def fresh(self, base):
         base = "".join(ch if ch.isalnum() or ch == "_" else "_" for ch in base)
@@ -230,6 +231,9 @@ class Translator:
         self.stack = []
         self.forced_res = forced_res or {}    # coqname -> True: keep the res type of the pinned revision
         self.used_enums = {}
+        # tables generated at build time (build.rs -> crc32_table.rs): parameters of the functions that use them;
+        # their dimensions are part of their Rust types ([u32; 256], [[u32; 256]; 16])
+        self.ext_tables = {"TABLE": ([256], "u32"), "TABLE16": ([16, 256], "u32")}
 
     def all_idx(self, first):
         return [first] + [ix for ix in self.files.values() if ix is not first]
@@ -328,6 +332,9 @@ class Translator:
                             g = ctx.fresh("self_" + f)
                             env["self." + f] = self.param_value(g, fty, "self." + f)
                             params.append((g, coq_type(erase(fty)), fty))
+                            if pt == "mut" and rty == ("unit",) and len(st[2]) == 1 and erase(fty) in INT_BITS:
+                                ctx.setter = "self." + f
+                                ctx.rty = erase(fty)
                 continue
             try:
                 ty = self.rtype(pt, ix, gens)
@@ -436,6 +443,9 @@ class Translator:
         txt = pr(comp, False) if is_pure(comp) else pr(comp, True)
         if "%UNDECLARED:" in txt:
             raise Untranslatable("uses %s, which is not among the declared parameters" % txt.split("%UNDECLARED:")[1].split()[0].rstrip(")"))
+        ext = [t for t in ("TABLE", "TABLE16") if t in ctx.ext_used]
+        info.ext = ext
+        params = [(t, "list N" if len(self.ext_tables[t][0]) == 1 else "list (list N)", ("ext", t)) for t in ext] + params
         info.params = params
         info.rty = ctx.rty if not ctx.opt else ("opt", ctx.rty)
         info.comp = comp
@@ -476,6 +486,15 @@ class Translator:
         for x in idxs:
             if v in x.newtypes:
                 return ("nt", v, x.newtypes[v])
+        for x in idxs:
+            if v in x.records and len(x.records[v]) == 1:
+                (fname, ft), = x.records[v].items()
+                try:
+                    fty = parse_type(ft, idxs)
+                except Untranslatable:
+                    fty = None
+                if fty in INT_BITS:
+                    return fty
         for x in idxs:
             if v in x.tuples or v in x.enums:
                 gdef = x.generics.get(v, [])
@@ -588,6 +607,8 @@ class Translator:
             return env
         env = dict(env)
         for name, lo, hi in facts:
+            if name.startswith("%len:"):
+                name = name[5:]
             v = env.get(name)
             if isinstance(v, V) and v.lo is not None:
                 nlo, nhi = max(v.lo, lo), min(v.hi, hi)
@@ -625,6 +646,8 @@ class Translator:
             return wrap(pre, self.bind_local(name, v, env, ctx, rest, declare=True))
         if kind == "for":
             return self.for_loop(st, env, ctx, rest)
+        if kind == "while":
+            return self.while_loop(st, env, ctx, rest)
         if kind == "assign" and st[1][0] == "index":
             _, lhs, op, e = st
             if lhs[1][0] != "path" or len(lhs[1][1]) != 1 or lhs[1][1][0] not in env:
@@ -662,7 +685,7 @@ class Translator:
         if kind == "return":
             if st[1] is None:
                 if ctx.setter:
-                    v = env["self.0"]
+                    v = env[ctx.setter if isinstance(ctx.setter, str) else "self.0"]
                     ctx.rets.append(v)
                     return ("ret", v.code)
                 raise Untranslatable("return without a value")
@@ -783,6 +806,81 @@ class Translator:
                     walk(y)
         walk(blk)
         return out
+
+    def while_loop(self, st, env, ctx, rest):
+        """while X.len() >= K { ...; X = &X[k..]; }  (1 <= k): at most `length X` iterations"""
+        _, cond, blk = st
+        stmts_, tail_ = blk
+        if tail_ is not None or not stmts_:
+            raise Untranslatable("while body")
+        last = stmts_[-1]
+        ok = (last[0] == "assign" and last[2] is None and last[1][0] == "path" and len(last[1][1]) == 1 and
+              last[3][0] == "slice" and last[3][1] == last[1] and last[3][3] is None and last[3][2] is not None and
+              last[3][2][0] == "num" and last[3][2][1] >= 1)
+        if not ok:
+            raise Untranslatable("while loop that does not end with `x = &x[k..]`")
+        xname = last[1][1][0]
+        for st2 in stmts_[:-1]:
+            if st2[0] == "assign" and st2[1] == last[1]:
+                raise Untranslatable("the sliced variable is assigned twice in the loop")
+        if xname not in env or env[xname].ty != ("bytes",):
+            raise Untranslatable("while over a non-slice")
+        state = self.assigned_names(blk, env)
+        x0 = env[xname]
+        def attempt(types, for_cond):
+            e2 = dict(env)
+            e2["%decl"] = frozenset()
+            snames = []
+            for key, ty in zip(state, types):
+                g = ctx.fresh(key.replace("self.", "self"))
+                snames.append(g)
+                cur = env[key]
+                if ty == ("bytes",):
+                    e2[key] = V(g, ty, 0, cur.hi, var=key)
+                elif erase(ty) in INT_BITS:
+                    e2[key] = V(g, ty, 0, tmax(erase(ty)), var=key)
+                else:
+                    e2[key] = V(g, ty, var=key)
+            pc, c = self.expr(cond, e2, ctx, "bool")
+            if pc or c.ty != "bool":
+                raise Untranslatable("while condition may panic")
+            if for_cond:
+                return snames, c
+            e3 = self.refine(e2, c.tf)
+            def at_end(env_end):
+                vs = [env_end[key] for key in state]
+                return ("ret", "(%s)" % ", ".join(v.code for v in vs) if len(vs) > 1 else vs[0].code)
+            body = self.stmts(stmts_, None, e3, ctx, ("cont", at_end))
+            return snames, c, body, e2
+        base = [env[key].ty for key in state]
+        types = [("u64" if t == "int?" else t) for t in base]
+        cn, c = attempt(types, True)
+        sn, c2, body, e2 = attempt(types, False)
+        def pat(ns):
+            return "(%s)" % ", ".join(ns) if len(ns) > 1 else ns[0]
+        init = pat([self.coerce(env[key], t).code for key, t in zip(state, types)])
+        cfun = "(fun %s => %s)" % ("'" + pat(cn) if len(cn) > 1 else cn[0], c.code)
+        env2 = dict(env)
+        outs = []
+        neg = self.refine(e2, c2.ff)
+        for key, ty in zip(state, types):
+            g = ctx.fresh(key.replace("self.", "self"))
+            outs.append(g)
+            if ty == ("bytes",):
+                env2[key] = V(g, ty, 0, neg[key].hi if key == xname else env[key].hi, var=key)
+            elif erase(ty) in INT_BITS:
+                env2[key] = V(g, ty, 0, tmax(erase(ty)), var=key)
+            else:
+                env2[key] = V(g, ty, var=key)
+        k = rest(env2)
+        bind_out = (lambda t: ("letp", pat(outs), t, k) if len(outs) > 1 else ("let", outs[0], t, k))
+        spat = "'" + pat(sn) if len(sn) > 1 else sn[0]
+        if is_pure(body):
+            code = "(src_while (length %s) %s (fun %s => %s) %s)" % (x0.code, cfun, spat, pr(body, False, 6), init)
+            return bind_out(code)
+        code = "(src_while_res (length %s) %s (fun %s => %s) %s)" % (x0.code, cfun, spat, pr(body, True, 6), init)
+        t = ctx.fresh("t")
+        return ("bind", t, ("raw", code), bind_out(t))
 
     def for_loop(self, st, env, ctx, rest):
         _, pat, it, blk = st
@@ -937,7 +1035,7 @@ class Translator:
         if tail is not None:
             return self.tail(tail, env, ctx, k)
         if k[0] == "fnend" and ctx.setter:
-            v = env["self.0"]
+            v = env[ctx.setter if isinstance(ctx.setter, str) else "self.0"]
             ctx.rets.append(v)
             return ("ret", v.code)
         if k[0] == "fnend" and ctx.mode[0] in ("let", "arg"):
@@ -1277,6 +1375,20 @@ class Translator:
                 pre += p2
                 vs.append(x)
             return pre, V("(%s)" % ", ".join(v.code for v in vs), ("tuple", tuple(erase(v.ty) for v in vs)))
+        if k == "structlit":
+            nm = e[1][-1]
+            if nm == "Self":
+                nm = ctx.owner
+            for x in self.all_idx(ctx.ix):
+                if nm in x.records and len(x.records[nm]) == 1 and len(e[2]) == 1 and e[2][0][0] in x.records[nm]:
+                    fty = parse_type(x.records[nm][e[2][0][0]], self.all_idx(x))
+                    if fty in INT_BITS:
+                        pre, v = self.expr(e[2][0][1], env, ctx, fty)
+                        v = self.coerce(v, fty)
+                        if erase(v.ty) != fty:
+                            raise Untranslatable("field of type %s" % (v.ty,))
+                        return pre, v
+            raise Untranslatable("struct literal of %s" % nm)
         if k == "str":
             raise Untranslatable("string literal")
         raise Untranslatable("expression " + k)
@@ -1285,7 +1397,8 @@ class Translator:
         """length of a byte list value as a usize value"""
         if b.lo is not None and b.lo == b.hi:
             return num(b.lo, "usize")
-        return V("(len %s)" % b.code, "usize", b.lo if b.lo is not None else 0, b.hi if b.hi is not None else tmax("usize"))
+        return V("(len %s)" % b.code, "usize", b.lo if b.lo is not None else 0, b.hi if b.hi is not None else tmax("usize"),
+                 var=("%len:" + b.var) if b.var else None)
 
     def slice_range(self, pre, b, lo, hi, ctx):
         n = self.blen(b)
@@ -1624,6 +1737,32 @@ class Translator:
         raise Untranslatable("operator " + op)
 
     def index(self, base, ix, env, ctx):
+        if base[0] == "index" and base[1][0] == "path" and base[1][1][-1] in self.ext_tables:
+            tn = base[1][1][-1]
+            dims, ety = self.ext_tables[tn]
+            if len(dims) == 2:
+                p1, j = self.expr(base[2], env, ctx, "usize")
+                p2, i = self.expr(ix, env, ctx, "usize")
+                j, i = self.coerce(j, "usize"), self.coerce(i, "usize")
+                pre = p1 + p2
+                if j.hi >= dims[0]:
+                    p3, j = self.chk("(%s <? %d)" % (j.code, dims[0]), j.code, "usize", j.lo, dims[0] - 1, ctx)
+                    pre += p3
+                if i.hi >= dims[1]:
+                    p3, i = self.chk("(%s <? %d)" % (i.code, dims[1]), i.code, "usize", i.lo, dims[1] - 1, ctx)
+                    pre += p3
+                ctx.ext_used.add(tn)
+                return pre, V("(List.nth (N.to_nat %s) (List.nth (N.to_nat %s) %s []) 0)" % (i.code, j.code, tn), ety, 0, tmax(ety))
+        if base[0] == "path" and base[1][-1] in self.ext_tables and len(self.ext_tables[base[1][-1]][0]) == 1:
+            tn = base[1][-1]
+            dims, ety = self.ext_tables[tn]
+            pre, i = self.expr(ix, env, ctx, "usize")
+            i = self.coerce(i, "usize")
+            if i.hi >= dims[0]:
+                p3, i = self.chk("(%s <? %d)" % (i.code, dims[0]), i.code, "usize", i.lo, dims[0] - 1, ctx)
+                pre += p3
+            ctx.ext_used.add(tn)
+            return pre, V("(List.nth (N.to_nat %s) %s 0)" % (i.code, tn), ety, 0, tmax(ety))
         if base[0] == "path" and base[1][-1] in self.tables:
             name, length = self.tables[base[1][-1]]
             pre, i = self.expr(ix, env, ctx, "usize")
@@ -1647,6 +1786,11 @@ class Translator:
     def call_fn(self, f, argvals, argexprs, env, ctx):
         """call of a translated function; argvals[i] given or None -> translate argexprs[i - offset]"""
         pre, codes = [], []
+        ext = list(getattr(f, "ext", []))
+        for t in ext:
+            ctx.ext_used.add(t)
+        if ext:
+            argvals = [V(t, ("ext", t)) for t in ext] + list(argvals)
         off = len(argvals) - len(argexprs)
         if len(argvals) != len(f.params_rust):
             raise Untranslatable("arity of %s" % f.coqname)
@@ -1716,6 +1860,12 @@ class Translator:
                 return pre, self.cast(self.coerce(v, "u64"), "usize")     # 64-bit target: the identity
             f = self.fn_info(ctx.ix, None, name)
             return self.call_fn(f, [None] * len(args), args, env, ctx)
+        if len(path) == 2 and path[0] in INT_BITS and name == "from_le_bytes" and len(args) == 1:
+            pre, b = self.expr(args[0], env, ctx)
+            n = INT_BITS[path[0]] // 8
+            if b.ty != ("bytes",) or b.lo != n or b.hi != n:
+                raise Untranslatable("from_le_bytes of something that is not exactly %d bytes" % n)
+            return pre, V("(le_lor %s)" % b.code, path[0], 0, tmax(path[0]))
         if len(path) == 2 and path[0] in INT_BITS and name == "from" and len(args) == 1:
             pre, v = self.expr(args[0], env, ctx)
             return pre, self.cast(v, path[0])
@@ -1787,6 +1937,10 @@ class Translator:
             if name == "is_empty" and not args:
                 return pre, V("(len %s =? 0)" % r.code, "bool")
             if name in ("iter", "to_owned", "to_vec", "clone", "as_ref", "as_slice", "as_bytes", "into_iter", "copied", "cloned", "borrow", "deref") and not args:
+                return pre, r
+            if name == "try_into" and not args and r.lo is not None and r.lo == r.hi:
+                return pre, r.with_(opt=("tryinto",))       # slice -> [u8; n] of exactly that length: cannot fail
+            if name == "unwrap" and not args and r.opt == ("tryinto",):
                 return pre, r
             if name == "rev" and not args:
                 return pre, r.with_(code="(rev %s)" % r.code, var=None)
